@@ -23,4 +23,4 @@ CONSTANTS
   Variant = "intended"
 INIT Init
 NEXT Next
-INVARIANTS Agrees HpackInSync NeverBroken Transparent Emit
+INVARIANTS Agrees Reassembly HpackInSync NeverBroken Transparent Emit
